@@ -1773,37 +1773,14 @@ Section XTx.
     - intros (k & old & Hin & H). exists (k, old). split; [exact Hin|]. cbn. now rewrite H.
   Qed.
 
-  (* WATCH never replaces or drops an entry; a key not yet watched gets the value it has now *)
+  (* WATCH never replaces or drops an entry, and records every key it names with the value it has now *)
   Lemma x_watch_keeps : forall ks s w k v, In (k, v) w -> In (k, v) (XWATCH s w ks).
-  Proof.
-    induction ks as [|k0 ks IH]; intros s w k v H; [exact H|]. cbn [x_watch]. apply IH.
-    destruct (x_has V k0 w); [exact H|]. apply in_or_app. now left.
-  Qed.
+  Proof. intros ks s w k v H. unfold x_watch. apply in_or_app. now left. Qed.
 
-  Lemma x_has_in : forall w k, x_has V k w = true <-> exists v, In (k, v) w.
+  Lemma x_watch_fresh : forall ks s w k, In k ks -> In (k, read_key s k) (XWATCH s w ks).
   Proof.
-    induction w as [|[k' v'] w IH]; intros k; cbn [x_has].
-    - split; [discriminate|]. intros [v []].
-    - rewrite orb_true_iff, IH, bytes_eqb_spec. split.
-      + intros [->|[v H]]; [exists v'; now left|exists v; now right].
-      + intros [v [H|H]]; [inversion H; now left|right; eauto].
-  Qed.
-
-  Lemma x_has_app w1 w2 k : x_has V k (w1 ++ w2) = x_has V k w1 || x_has V k w2.
-  Proof.
-    induction w1 as [|[k' v'] w1 IH]; [reflexivity|]. cbn [app x_has]. rewrite IH. now rewrite orb_assoc.
-  Qed.
-
-  (* a key named by WATCH that was not watched before is recorded with the value it has now *)
-  Lemma x_watch_fresh : forall ks s w k, In k ks -> x_has V k w = false ->
-    In (k, read_key s k) (XWATCH s w ks).
-  Proof.
-    induction ks as [|k0 ks IH]; intros s w k Hin Hw; [destruct Hin|]. cbn [x_watch].
-    destruct (bytes_eqb k k0) eqn:Ek.
-    - apply bytes_eqb_spec in Ek. subst k0. rewrite Hw. apply x_watch_keeps. apply in_or_app. right. now left.
-    - destruct Hin as [->|Hin]; [assert (Hr : bytes_eqb k k = true) by (apply bytes_eqb_spec; reflexivity); congruence|].
-      apply IH; [exact Hin|]. destruct (x_has V k0 w); [exact Hw|].
-      rewrite x_has_app, Hw. cbn [x_has orb]. now rewrite Ek.
+    intros ks s w k H. unfold x_watch. apply in_or_app. right.
+    apply in_map_iff. exists k. split; [reflexivity|exact H].
   Qed.
 
   (* a watch entry survives every command except UNWATCH (outside a transaction) and EXEC / DISCARD
@@ -1851,6 +1828,7 @@ Lemma x_nonvacuous_c05 :
   snd (run [["LPUSH"; "k"; "a"]; ["WATCH"; "k"]; ["LPUSH"; "k"; "b"]; ["MULTI"]; ["SET"; "j"; "1"]; ["EXEC"]]%string) = RNilBulk /\
   snd (run [["SET"; "k"; "a"]; ["WATCH"; "k"]; ["SET"; "k"; "b"]; ["WATCH"; "k"]; ["MULTI"]; ["SET"; "j"; "1"]; ["EXEC"]]%string) = RNilBulk /\
   snd (run [["SET"; "k"; "a"]; ["WATCH"; "k"]; ["SET"; "k"; "b"]; ["MULTI"]; ["EXEC"]]%string) = RNilBulk /\
+  snd (run [["SET"; "k"; "a"]; ["WATCH"; "k"]; ["SET"; "k"; "b"]; ["WATCH"; "k"]; ["SET"; "k"; "a"]; ["MULTI"]; ["EXEC"]]%string) = RNilBulk /\
   snd (run [["SET"; "k"; "a"]; ["WATCH"; "k"]; ["GET"; "k"]; ["MULTI"]; ["INCR"; "k"]; ["SET"; "j"; "1"]; ["EXEC"]]%string)
     = RArr [RError (str "ERR value is not an integer or out of range"); RSimple (str "OK")].
 Proof. cbv zeta. repeat split; vm_compute; reflexivity. Qed.
